@@ -533,8 +533,16 @@ func (x *Exec) step(op world.Op) {
 			return // the mocker's internal state after a faulted operation is unspecified: only Cancel / Reset follow
 		}
 	}
-	if x.opFailed && op.K == "apply" && op.F&2 != 0 {
-		return
+	if x.opFailed {
+		// recovery regime: an operation of this history failed under an injected fault. What a mocker
+		// remembers after a failure (a half-cancelled stub, which mockers a partial Reset reached - that
+		// depends on Go's map order) is outside every statement, so nothing is INSTALLED any more; the
+		// rest of the history checks that Cancel / Reset still restore everything and that calls behave
+		// as the model says.
+		switch op.K {
+		case "apply", "ret", "retseq", "when", "bad", "pkglookup":
+			return
+		}
 	}
 	switch op.K {
 	case "apply":
